@@ -81,10 +81,11 @@ PROPS = {
     "C01": {
         "harness": "c01",
         "theorems": ["DL.C01_mothers", "DL.C01_mother_names", "DL.C01_line", "DL.C01_param_num", "DL.C01_param_word", "DL.C01_numforms",
-                     "DL.C01_alphabet", "DL.dedupLoop_eq"],
-        "partial": ["the theorems are at statement level (what parse() makes of the statements); the reading of the text into statements "
-                    "(Lark LALR + contextual lexer) is tied by the correspondence check on every generated text and every shipped file, "
-                    "not proved (C01_parse_render is not a theorem yet)"],
+                     "DL.C01_alphabet", "DL.dedupLoop_eq", "DL.C01_text_tables", "DL.C01_text_mothers", "DL.C01_text_complete"],
+        "modules": ["DL.Props.C01Text"],
+        "partial": ["C01_text_* compose the statement-level theorems with the reader round trip (C02_read_layout_decay): from the TEXT, for "
+                    "documents meeting StmtOK and layouts meeting GoodLayoutD; they are about the Lean reader (readDoc), which is tied to the "
+                    "real LALR parser + contextual lexer on every generated text and every shipped file, not proved equal to it"],
         "assumptions": [],
     },
     "C07": {
